@@ -21,8 +21,9 @@ type Clause struct {
 }
 
 type LoopSpec struct {
-	Invs []*Clause
-	Decr *Clause
+	Invs  []*Clause
+	Steps []*Clause // asserted at every back edge only (may name locals of the body and iterstart(e))
+	Decr  *Clause
 }
 
 type FuncSpec struct {
@@ -49,6 +50,7 @@ type FuncSpec struct {
 	Callbacks    map[string]*FuncSpec
 	Decr         *Clause // termination measure for recursive functions
 	InlineCalls  []string
+	CallSites    map[string][]*Clause // "callee@occurrence" -> assertions over the caller's locals and arg0..argN at that call
 	GhostSets    []*GhostSet
 	GhostExits   []*GhostSet
 	NoSafety     bool // do not emit bounds/nil obligations (pure spec use)
@@ -115,7 +117,7 @@ var labelRe = regexp.MustCompile(`^\[([A-Za-z0-9_.\-]+)\]\s*`)
 
 var clauseKeywords = map[string]bool{"decreases": true, "inlinecalls": true, "assumes": true, "ghostset": true, "ghostexit": true, "preserves": true, "requires": true, "ensures": true, "modifies": true, "allocates": true,
 	"loop": true, "inline": true, "assume": true, "pure": true, "props": true, "panic_assumed": true,
-	"panics_if": true, "cbensures": true, "entryassumes": true, "ensureslocal": true, "callback": true, "nosafety": true, "params": true, "bounded": true}
+	"panics_if": true, "cbensures": true, "entryassumes": true, "ensureslocal": true, "callback": true, "nosafety": true, "params": true, "bounded": true, "callsite": true}
 
 func newSpecs() *Specs {
 	return &Specs{Macros: map[string]string{}, Owned: map[string]bool{}, Funcs: map[string]*FuncSpec{}, Ghosts: map[string]*GhostDecl{}, SpecFuncs: map[string]*SpecFunc{}}
@@ -533,6 +535,11 @@ func (sp *Specs) parseClause(fs *FuncSpec, w, rest, path string, line int) error
 				c.Label = "inv" + strconv.Itoa(len(ls.Invs))
 			}
 			ls.Invs = append(ls.Invs, c)
+		case "step":
+			if c.Label == "" {
+				c.Label = "step" + strconv.Itoa(len(ls.Steps))
+			}
+			ls.Steps = append(ls.Steps, c)
 		case "decreases":
 			ls.Decr = c
 		default:
@@ -570,6 +577,23 @@ func (sp *Specs) parseClause(fs *FuncSpec, w, rest, path string, line int) error
 			return err
 		}
 		fs.Decr = c
+	case "callsite":
+		// callsite CALLEE@N requires [label] EXPR
+		parts := strings.SplitN(strings.TrimSpace(rest), " ", 3)
+		if len(parts) < 3 || parts[1] != "requires" || !strings.Contains(parts[0], "@") {
+			return fmt.Errorf("callsite CALLEE@N requires EXPR")
+		}
+		c, err := parseClauseBody(parts[2], path, line)
+		if err != nil {
+			return err
+		}
+		if fs.CallSites == nil {
+			fs.CallSites = map[string][]*Clause{}
+		}
+		if c.Label == "" {
+			c.Label = "site" + strconv.Itoa(len(fs.CallSites[parts[0]]))
+		}
+		fs.CallSites[parts[0]] = append(fs.CallSites[parts[0]], c)
 	case "inlinecalls":
 		for _, it := range strings.Split(rest, ",") {
 			fs.InlineCalls = append(fs.InlineCalls, strings.TrimSpace(it))
